@@ -450,7 +450,7 @@ impl Ctx {
         let cfg = Config {
             cases: cases as u32,
             failure_persistence: None,
-            max_shrink_iters: 20_000,
+            max_shrink_iters: 5_000,
             max_global_rejects: 1 << 20,
             max_local_rejects: 1 << 16,
             verbose: 0,
